@@ -138,9 +138,10 @@ def clockq_expected(prog, mode='nrt'):
       'past'     an entry was scheduled before the present
       'crosstie' after a tempo/beats change an entry of that clock ties with
                  an entry of another clock
-      'apptie'   (rt) a routine on the app clock re-schedules / clears while
-                 another entry of the app clock is due at the same instant
-                 (that clock wakes everything that is due in one tick)
+    An entry that is due at the very instant at which an earlier entry of
+    that instant runs is still pending: re-scheduling it moves it, clearing
+    the clock cancels it - on every clock, the app clock (which collects what
+    is due in one tick before awakening it) included.
     """
     flags = set()
     cst = {}
@@ -192,11 +193,6 @@ def clockq_expected(prog, mode='nrt'):
 
     def do(st, who_clock):
         op = st[0]
-        if mode == 'rt' and who_clock is not None and \
-                kind[who_clock] == 'app' and op in ('sched', 'clear') and \
-                st[1] == who_clock and \
-                any(e[2] == who_clock and e[0] == now[0] for e in pend):
-            flags.add('apptie')
         if op == 'sched':
             _, c, d, tg = st
             add(c, tg, s2b(c, now[0]) + d)
@@ -258,3 +254,39 @@ def clockq_expected(prog, mode='nrt'):
             if r is not None:
                 add(c, task, s2b(c, t) + r)
     return out, flags, stats
+
+
+# ---------------------------------------------------------------------------
+# the app clock's scheduler driven directly
+# ---------------------------------------------------------------------------
+
+def scheduler_expected(case):
+    """case: {'init': [[task, time], ...] (insertion order), 'actions':
+    {task: [op, ...]} run when the task is awakened (op = ['sched', d, tg] |
+    ['sched_abs', t, tg] | ['clear']), 'returns': {task: [delta | None, ...]}}
+    -> [[task, time], ...] in the order of awakening when everything is
+    drained: (time, insertion order); a re-inserted pending entry is moved,
+    a cleared one never comes out."""
+    q = ListQueue()
+    for task, t in case['init']:
+        q.add(float(t), task)
+    calls = {}
+    out = []
+    while not q.empty():
+        t, task = q.pop()
+        out.append([task, t])
+        n = calls.get(task, 0)
+        calls[task] = n + 1
+        if n == 0:
+            for op in case['actions'].get(task, []):
+                if op[0] == 'sched':
+                    q.add(t + op[1], op[2])
+                elif op[0] == 'sched_abs':
+                    q.add(float(op[1]), op[2])
+                else:
+                    q.items = []
+        rets = case['returns'].get(task, [])
+        r = rets[n] if n < len(rets) else None
+        if r is not None:
+            q.add(t + r, task)
+    return out
